@@ -143,8 +143,9 @@ OptsOf(c) == [pis |-> (c % 2) = 1, pid |-> ((c \div 2) % 2) = 1, piq |-> ((c \di
 
 R(a, b) == <<RQ(a, 1), RQ(b, 1)>>
 \* point kinds: 1..Generic generic; then corners by name
-CornerNames == <<"zero_rho", "zero_v", "zero_w", "rho_max", "rho_crit", "ctrl0", "ctrl1inf", "high_demand",
-                 "congested", "free", "mixed_zero", "low_speed", "ctrl_mixed">>
+\* (ordered so that a small number of corners already switches the most branches)
+CornerNames == <<"high_demand", "congested", "zero_v", "zero_rho", "zero_w", "rho_max", "rho_crit", "ctrl0", "ctrl1inf",
+                 "free", "mixed_zero", "low_speed", "ctrl_mixed">>
 PointKind(p) == IF p <= Generic THEN "generic"
                 ELSE IF Family = "neutral" THEN Tab(<<"ctrl1inf", "ctrl_mixed", "congested", "ctrl1inf", "free", "ctrl_mixed">>, p - Generic)
                 ELSE Tab(CornerNames, p - Generic)
